@@ -170,8 +170,22 @@ func init() {
 			if put == nil {
 				c.und("no-overwrite-migrated", "ingestor.ingestBlock", p.Pos(fnPos(f)), "BlockTransactions Put not found")
 			} else {
-				ok, miss := everyDisjunctHas(p.mustHoldAt(put.Instr), []string{"^!", "validateCount(", "#0"})
-				c.check(ok, "no-overwrite-migrated", "ingestor.ingestBlock → BlockTransactionsBucket.Put", p.Pos(put.Pos()), "a block reported as already migrated is skipped, not rewritten", "the combined-layout entry is written even when validateCount reported the block as already migrated: a re-run after an interruption overwrites migrated blocks with empty entries ("+miss+")")
+				ok := false
+				miss := "validateCount does not report the already-migrated case to its caller"
+				if vc := findSite(f, "validateCount"); vc != nil {
+					if call, isCall := vc.Instr.(*ssa.Call); isCall {
+						sig := call.Call.Signature()
+						if sig.Results().Len() >= 2 && sig.Results().At(0).Type().String() == "bool" {
+							miss = "the Put is not guarded by the negation of validateCount's already-migrated result"
+							for _, fct := range factsAt(put.Instr) {
+								if ex, isEx := fct.Cond.(*ssa.Extract); isEx && ex.Tuple == ssa.Value(call) && ex.Index == 0 && !fct.Pos {
+									ok = true
+								}
+							}
+						}
+					}
+				}
+				c.check(ok, "no-overwrite-migrated", "ingestor.ingestBlock → BlockTransactionsBucket.Put", p.Pos(put.Pos()), "a block reported as already migrated is skipped, not rewritten", "the combined-layout entry is written even for a block the re-run found already migrated: a re-run after an interruption overwrites migrated blocks with empty entries ("+miss+")")
 			}
 		} else {
 			c.und("no-overwrite-migrated", "ingestor.ingestBlock", "", "anchor not found")
